@@ -1,7 +1,8 @@
 /-
 C15 — linkage, storage duration and symbol emission are correct in every configuration.
 
-Property theorems only (helper lemmas: Lemmas/Linkage{Lemmas,Parse,Scan,Tent,Emit}.lean).
+Property theorems only (helper lemmas: Lemmas/Linkage{Lemmas,Parse,Scan,Tent,Emit,View,Exact,Ok,Uses,ScanTy,Closure,
+Data,Decls,Final,ObjSym,FnSym,Sym}.lean).
 
 Model: Model/Linkage.lean (parse.c `function`/`global_variable`/`primary`/`mark_live`/`scan_globals`,
 codegen.c `emit_data`/`emit_text`), Gen/AddrFormsGen.lean (gen_addr's ND_VAR arm, regenerated from codegen.c).
@@ -19,6 +20,9 @@ import ChibiVerif.Lemmas.LinkageScan
 import ChibiVerif.Lemmas.LinkageTent
 import ChibiVerif.Lemmas.LinkageEmit
 import ChibiVerif.Lemmas.LinkageView
+import ChibiVerif.Lemmas.LinkageScanTy
+import ChibiVerif.Lemmas.LinkageOk
+import ChibiVerif.Lemmas.LinkageSym
 
 namespace ChibiVerif.Props.C15
 open ChibiVerif.Linkage
@@ -306,6 +310,31 @@ example : holdsOn (declAll {} tentativeUnit) (fun st =>
       st.globals.all (fun o => !o.isTentative || o.isDefinition))) = true := by
   decide
 
+/-- **C15_tentative_type.**  The type of the definition that stays.  For every `Obj` list and every name `s`
+    without a non-tentative definition: if the types of the tentative definitions of `s` (newest first) satisfy
+    `ChainOK P` - all have the composite type's alignment and array-ness `P`, and either none gives an array
+    length and all element sizes are `P.size`, or behind some declaration that gives the length `P.size` only
+    declarations follow that give that length or none (for a valid unit: always, Lemmas/LinkageObjSym.lean
+    `chain_of_valid`) - then every tentative definition of `s` that `scan_globals` keeps has a known length and
+    the size, alignment and array-ness of the composite type (C11 6.2.7p3, 6.9.2p2/p5). -/
+theorem C15_tentative_type (P : TyParams) (gs : List Obj) (s : Sym) (hreal : gs.any (realDefOf s) = false)
+    (hc : ChainOK P (tysOf s gs)) :
+    ∀ o, o ∈ scanGlobals gs → isTentOf s o = true →
+      o.ty.unknownLen = false ∧ o.ty.size = P.size ∧ o.ty.align = P.align ∧ o.ty.isArray = P.isArray := by
+  intro o ho hs
+  obtain ⟨⟨ha, hr, _⟩, hk, hsz⟩ := scanGlobals_good hreal hc o ho hs
+  exact ⟨hk, hsz, ha, hr⟩
+
+/-- non-vacuity: `int a[]; int a[5]; int a[];` (a=0, newest first in the list): the hypotheses hold with the
+    composite type `int[5]`, and the definition that stays has 20 bytes -/
+example :
+    let gs : List Obj := [ { sym := .named 0, isTentative := true, isStatic := false, ty := ⟨4, 4, true, true⟩ },
+                           { sym := .named 0, isTentative := true, isStatic := false, ty := ⟨20, 4, true, false⟩ },
+                           { sym := .named 0, isTentative := true, isStatic := false, ty := ⟨4, 4, true, true⟩ } ]
+    gs.any (realDefOf (.named 0)) = false ∧ ChainOK ⟨20, 4, true⟩ (tysOf (.named 0) gs) ∧
+    (scanGlobals gs).map (fun o => (o.ty.size, o.ty.unknownLen)) = [(20, false)] := by
+  refine ⟨by decide, chain_initial (by decide) (Or.inl ⟨⟨20, 4, true, false⟩, by decide, rfl⟩), by decide⟩
+
 /-! ### address forms -/
 
 /-- **C15_addr_table (full statement).**  For every context `gen_addr` can be in, the chosen address form is
@@ -333,18 +362,90 @@ example : ctxConsistent ⟨false, false, true, true, false, false⟩ = true ∧
 
 /-- **C15_symbols (full statement).**  For every valid declaration sequence and both `-fcommon` settings the
     ELF symbol table of the model's output has exactly the entries of `Spec.symbols`.
-    Open: it is false in the known-finding regions (Findings/C15.lean has kernel-checked witnesses for each);
-    outside them it is validated on every run (model = chibicc, Spec = gcc 12 on exhaustive short declaration
-    sequences and seeded graphs) but not proved: the missing piece is the simulation between the flag-mutating
-    walk of `declAll` and the all-declarations-at-once reading of the Spec (`fnClass`, `objKind`, `neededList`). -/
+    It is false in the known-finding regions (Findings/C15.lean has kernel-checked witnesses for each) and -
+    for a reason that has nothing to do with chibicc - on units that `valid` admits although no C compiler would
+    (use of a block-scope `extern` before its declaration, incompatible element types, alignment 0:
+    Findings/C15.lean `C15_side_*`).  Outside both it is proved: `C15_symbols_partial`. -/
 def C15_symbols_Statement : Prop :=
   ∀ (fcommon : Bool) (ds : List Decl), valid ds = true →
     ∃ gs, parseUnit ds = .ok gs ∧
       (∀ e, e ∈ objectSymbols fcommon gs ↔ e ∈ symbols fcommon ds)
 
-/-- the decidable region in which `C15_symbols_Statement` is claimed -/
+/-- the decidable region in which `C15_symbols_Statement` is claimed: a valid unit outside the four
+    known-finding regions of the symbol table.  (`flagsFrozenDefRegion` is `flagsFrozenRegion` restricted to
+    functions the unit defines: the class of a function that is only declared never reaches the table.) -/
 def InScope (ds : List Decl) : Bool :=
-  valid ds && !flagsFrozenRegion ds && !deadStaticLocalRegion ds && !compositeSizeRegion ds &&
+  valid ds && !flagsFrozenDefRegion ds && !deadStaticLocalRegion ds && !compositeSizeRegion ds &&
   !externInitAfterStaticRegion ds
+
+/-- **C15_accepts.**  `parse` accepts every unit that is `valid` and declares its identifiers before use
+    (`refsOrdered`: `refsDeclared` with block-scope `extern` counted from its position on): none of the
+    diagnostics of the modelled code ("redefinition of f", "static declaration follows a non-static declaration",
+    "undefined variable" / "implicit declaration of a function") fires, and the root loop terminates. -/
+theorem C15_accepts (ds : List Decl) (hv : valid ds = true) (ho : refsOrdered ds [] [] = true) :
+    ∃ gs, parseUnit ds = .ok gs := by
+  obtain ⟨st, hst⟩ := parse_ok hv ho
+  obtain ⟨gs1, p⟩ := parsed_of_declAll hst
+  exact ⟨_, p.parseUnit⟩
+
+/-- **C15_symbols (partial).**  For every declaration sequence in `InScope` (valid, outside the four
+    known-finding regions) that satisfies the side condition `symbolsSide`, and both `-fcommon` settings:
+    `parse` accepts the unit and the ELF symbol table of the output - every defined label with binding, section
+    kind, size and alignment, every undefined reference - has exactly the entries of `Spec.symbols` (C11 6.2.2,
+    6.9.2, 6.7.4, GCC -fcommon, psABI array alignment, read over all declarations at once).
+
+    The proof is the simulation between the flag-mutating walk of `declAll` and the Spec: after any prefix the
+    list is `<new data objects, explicit> ++ <old list with one function object updated>` (Lemmas/LinkageExact);
+    function flags, `refs`, `uses` and the data objects are closed forms of the declarations (LinkageView,
+    LinkageUses, LinkageData); `mark_live` = the Spec's `closeRounds` closure (LinkageClosure, LinkageFnSym);
+    the tentative definition that stays has the composite type (LinkageScanTy, LinkageObjSym).
+
+    What is missing for the full statement:
+    * the four regions are genuine defects of chibicc (known findings);
+    * `symbolsSide` = `refsOrdered` (identifiers declared at the point of use; `valid`'s `refsDeclared` lets a
+      block-scope `extern` count for the whole body, chibicc and every C compiler reject the use before it) and
+      `tysAgree` (alignments positive; declarations that leave the array length open agree on the element size -
+      compatible types).  Both are facts about C that `Spec.valid` does not state; they are not restrictions on
+      chibicc. -/
+theorem C15_symbols_partial : ∀ (fcommon : Bool) (ds : List Decl), InScope ds = true → symbolsSide ds = true →
+    ∃ gs, parseUnit ds = .ok gs ∧ (∀ e, e ∈ objectSymbols fcommon gs ↔ e ∈ symbols fcommon ds) := by
+  intro fcommon ds hin hside
+  simp only [InScope, Bool.and_eq_true, Bool.not_eq_true'] at hin
+  obtain ⟨⟨⟨⟨hv, hf⟩, hd⟩, hc⟩, he⟩ := hin
+  exact symbols_partial_lemma fcommon hv hf hd hc he hside
+
+/-- the scope the driver reports (`Spec.symbolsScope`, printed by `drv_c15 symbols` / `regions`) is the
+    hypothesis of the theorem -/
+example (ds : List Decl) : symbolsScope ds = (InScope ds && symbolsSide ds) := rfl
+
+/-- non-vacuity: a unit with redeclarations (`static int s(void); static int s(void){..}`), a static-inline cycle
+    reached through a file-scope initializer, a dead static inline, a block-scope `extern` used after its
+    declaration, a static local whose initializer names a function and a string literal, tentative definitions of
+    an array with and without length, a TLS object, an `extern` object and an undeclared-here function that are
+    referenced.  Names: s=0 a=1 b=2 dead=3 main=4 ext=5 | p=6 arr=7 t=8 eo=9 bx=10 -/
+def mixedUnit : List Decl :=
+  [ .func 0 1 true false false none,
+    .func 1 1 true false true none, .func 2 1 true false true none, .func 5 3 false false false none,
+    .obj 7 false false false ⟨4, 4, true, true⟩ none, .obj 9 false true false ⟨4, 4, false, false⟩ none,
+    .func 1 1 true false true (some [.ref (.fn 2)]),
+    .func 2 1 true false true (some [.ref (.fn 1), .ref (.obj 9)]),
+    .func 3 4 true false true (some [.ref (.fn 3), .str 3]),
+    .obj 6 false false false ⟨8, 8, false, false⟩ (some [.ref (.fn 1), .str 4]),
+    .obj 7 false false false ⟨20, 4, true, false⟩ none,
+    .obj 8 true false true ⟨4, 4, false, false⟩ none, .obj 8 true false true ⟨4, 4, false, false⟩ none,
+    .func 0 1 true false false (some [.staticLocal false ⟨8, 8, false, false⟩ (some [.ref (.fn 5), .str 2])]),
+    .func 4 4 false false false (some [.externObj 10 false ⟨4, 4, false, false⟩, .ref (.obj 10), .ref (.fn 0), .ref (.obj 7)]) ]
+
+example : InScope mixedUnit = true ∧ symbolsSide mixedUnit = true := by decide
+
+example : InScope cyclicUnit = true ∧ symbolsSide cyclicUnit = true ∧
+    InScope tentativeUnit = true ∧ symbolsSide tentativeUnit = true := by decide
+
+/-- ... and the table the theorem speaks about is not trivial -/
+example : (symbols true mixedUnit).map (fun e => (e.sym, e.binding, e.kind, e.size)) =
+    [(.named 0, .local, .text, none), (.named 1, .local, .text, none), (.named 2, .local, .text, none),
+     (.named 5, .global, .undef, none), (.named 4, .global, .text, none),
+     (.named 7, .global, .common, some 20), (.named 9, .global, .undef, none), (.named 6, .global, .data, some 8),
+     (.named 8, .local, .tbss, some 4), (.named 10, .global, .undef, none)] := by decide
 
 end ChibiVerif.Props.C15
